@@ -42,6 +42,18 @@ CLAIMED["C04"] = ("proof", DATA_NOTE + "C04: get_scores delivers numbers only or
 CLAIMED["C14"] = ("proof", DATA_NOTE + "C14: obs/fcst become value (-|/) climatology cell by cell, other fields untouched, missing climatology or "
     "non-finite quotient drops the case for every input, climatology looked up by coordinates and never counted as an input; "
     "-c X versus X as extra input compared on the implementation.", "7 C14", "Coq proof over hand model + correspondence check")
+CLAIMED["C11"] = ("proof", DATA_NOTE + "C11: every case in exactly one slice for any bucket function (all 17 axes), slice counts and any additive "
+    "statistic add up to the pooled one, calendar facts for EVERY unix time (day, week = Monday, time of day, lead-time day), civil "
+    "calendar / month / year buckets and date<->unixtime<->daynum inverses decided for every day 1900-2100 (vm_compute over a finite "
+    "domain lifted by forallb_forall, bound in the statement); Model/Cal.v tied to datetime/calendar/matplotlib by comparison "
+    "(every day 1900-2100 in the thorough tier).", "7 C11", "Coq proof over hand model + correspondence check")
+CLAIMED["C18"] = ("model_checking", "Stateful executable Coq model of Data.get_scores (Model/DataState.v: both caches, a heap of array objects with identity, "
+    "every in-place write) evaluated by vm_compute and compared with ONE verif.data.Data object over the same histories: exhaustive up to "
+    "length 2 (quick) / 3 (thorough) over a 12-request menu per dataset plus random histories to length 10; compared are the arrays at return "
+    "time and the same objects at the end. Theorems: the pinned code's semantics (copy_all = false) REFUTES history independence (2-request "
+    "witness, reproduced on the implementation and repaired by fix c0f782e); cache-hit and mask-idempotence lemmas (partial); the unbounded "
+    "invariant proof is in progress. Falsifier: every response vs a fresh Data, earlier arrays / inputs unchanged, repeatability.",
+    "7 C18", "Coq executable state-machine model + exhaustive-history correspondence check (partial proof)")
 PENDING = {}
 
 def main():
